@@ -203,6 +203,10 @@ func (g *generatorContext) parseTerm(slexer *structLexer, allowUnknown bool) (no
 	if err != nil {
 		return nil, err
 	}
+	if out == nil {
+		// Not a term, so there is nothing a modifier could apply to.
+		return nil, nil
+	}
 	return g.parseModifier(slexer, out)
 }
 
@@ -252,6 +256,9 @@ func (g *generatorContext) parseCapture(slexer *structLexer) (node, error) {
 	n, err := g.parseTermNoModifiers(slexer, false)
 	if err != nil {
 		return nil, err
+	}
+	if n == nil {
+		return nil, fmt.Errorf("expected an expression to capture after @")
 	}
 	return &capture{field, n}, nil
 }
@@ -372,6 +379,9 @@ func (g *generatorContext) parseNegation(slexer *structLexer) (node, error) {
 	next, err := g.parseTermNoModifiers(slexer, false)
 	if err != nil {
 		return nil, err
+	}
+	if next == nil {
+		return nil, fmt.Errorf("expected an expression to negate")
 	}
 	return &negation{next}, nil
 }
